@@ -57,7 +57,7 @@ func installHooks() {
 	hookOnce.Do(func() {
 		verifhook.Register(func(name string, args ...interface{}) {
 			if name != "handler.command" && name != "handler.shutdown" && name != "limiter.enter" && name != "limiter.released" &&
-				name != "aggregate.nomore" {
+				name != "aggregate.nomore" && name != "aggregate.check" && name != "handler.reader_started" {
 				return
 			}
 			key := fmt.Sprintf("%p", args[0])
@@ -227,20 +227,48 @@ func init() {
 		lateFiles := []string{}
 		// the same argument for the aggregator: when it decides that no further lines channel will come, every
 		// read command it knew of has finished; a file seen in the limiter afterwards belongs to a later one
+		// the aggregator: "aggregate.check" fires before it reads its counter of outstanding read commands,
+		// "aggregate.nomore" after it has read 0; "handler.reader_started" fires after a read command has been
+		// added to that counter.  A command whose reader_started precedes the deciding check was in the counter
+		// when it was read (so it had finished); the others were received too late for the aggregator.
 		aggDone := false
 		afterAgg := []string{}
-		cmdsBeforeAgg := 0 // commands received before the aggregator finished (the map command included)
-		for _, e := range events {
-			if e == "aggregate.nomore" {
+		cmdsBeforeAgg := 0
+		{
+			nomoreAt, checkAt := -1, -1
+			for k, e := range events {
+				if e == "aggregate.nomore" {
+					nomoreAt = k
+					break
+				}
+			}
+			if nomoreAt >= 0 {
 				aggDone = true
-				continue
+				for k := nomoreAt - 1; k >= 0; k-- {
+					if events[k] == "aggregate.check" {
+						checkAt = k
+						break
+					}
+				}
+				for k, e := range events {
+					if k < checkAt && e == "handler.reader_started" {
+						cmdsBeforeAgg++
+					}
+					if k > nomoreAt && strings.HasPrefix(e, "file:") {
+						afterAgg = append(afterAgg, e[5:])
+					}
+				}
 			}
-			if !aggDone && e == "handler.command" {
-				cmdsBeforeAgg++
+		}
+		// drop the aggregator's polling events from the list handed on
+		{
+			kept := events[:0]
+			for _, e := range events {
+				if e != "aggregate.check" && e != "handler.reader_started" {
+					kept = append(kept, e)
+				}
 			}
-			if aggDone && strings.HasPrefix(e, "file:") {
-				afterAgg = append(afterAgg, e[5:])
-			}
+			events = kept
 		}
 		for _, e := range events {
 			switch {
